@@ -176,7 +176,13 @@ struct TcpNameserver {
     tcp: Option<tokio::net::TcpStream>,
     tcp_last_send_activity: Instant,
     tcp_last_recv_activity: Instant,
-    qid2reply: std::collections::HashMap<u16, Responder<super::dnspkt::DNSPkt>>,
+    qid2reply: std::collections::HashMap<
+        u16,
+        (
+            super::dnspkt::Question,
+            Responder<super::dnspkt::DNSPkt>,
+        ),
+    >,
     /* Bytes received from the TCP connection that do not form a whole message yet. */
     rbuf: Vec<u8>,
 }
@@ -225,7 +231,7 @@ impl TcpNameserver {
     }
 
     async fn send_tcp_reply(&mut self, qid: u16, reply: Result<super::dnspkt::DNSPkt, Error>) {
-        if let Some(resp) = self.qid2reply.remove(&qid) {
+        if let Some((_question, resp)) = self.qid2reply.remove(&qid) {
             resp.send(reply).unwrap();
         } else {
             log::error!("Sending reply to unknown request: {:?}", reply);
@@ -237,7 +243,10 @@ impl TcpNameserver {
         while self.qid2reply.contains_key(&msg.out_query.qid) {
             msg.out_query.qid = msg.out_query.qid.wrapping_add(1);
         }
-        self.qid2reply.insert(msg.out_query.qid, msg.out_reply);
+        self.qid2reply.insert(
+            msg.out_query.qid,
+            (msg.out_query.question.clone(), msg.out_reply),
+        );
         if let Some(ref mut tcp_sock) = self.tcp {
             use tokio::io::AsyncWriteExt as _;
             let bytes = msg.out_query.serialise();
@@ -300,6 +309,19 @@ impl TcpNameserver {
                 return;
             }
         };
+        /* A late or duplicated reply can carry an id that has since been reused: it is only
+         * the reply to the outstanding query if it also answers the same question.
+         */
+        if let Some((question, _)) = self.qid2reply.get(&pkt.qid)
+            && *question != pkt.question
+        {
+            log::warn!(
+                "Ignoring TCP reply {} that does not match outstanding {}",
+                pkt.question,
+                question
+            );
+            return;
+        }
         self.send_tcp_reply(pkt.qid, Ok(pkt)).await
     }
 
@@ -307,7 +329,7 @@ impl TcpNameserver {
         self.tcp = None;
         self.rbuf.clear();
         log::trace!("Tearing down {} TCP channel: {}", self.addr, err);
-        for (_qid, chan) in self.qid2reply.drain() {
+        for (_qid, (_question, chan)) in self.qid2reply.drain() {
             chan.send(Err(Error::TcpConnection(format!(
                 "TCP channel closed before reply: {}",
                 err
